@@ -71,8 +71,16 @@ theorem C13_init_events (c : Cfg) (i : Nat) (h : i < c.mods.length) :
 
 /-! ### non-vacuity -/
 private def demo : Cfg :=
-  ⟨[([116], [116])], [[116]], [], [], [⟨[109], [.file [97] ⟨[65], false⟩ false false]⟩], [], none⟩
+  ⟨[([116], [116])], [[116]], [], [], [⟨[109], [.file [97] ⟨[65], false⟩ false false]⟩], [], none, true⟩
 example : dom demo = true := by decide
 example : (trace demo St.start [.ast, .render, .render, .ast]).length = 6 := by decide
 
+end Pgs.C13
+
+namespace Pgs.C13
+/-- every Execute is handed the targets and packages of the request and an AST built in the mode the
+    `BiDirectional()` option selects -/
+theorem C13_exec_events (c : Cfg) (i : Nat) (h : i < c.mods.length) :
+    (execEvents c)[i]? = some (.exec i (sortDedup c.targets) (sortDedup (c.files.map (·.2))) c.bidi) := by
+  simp [execEvents, List.getElem?_map, List.getElem?_zip_eq_some, h]
 end Pgs.C13
